@@ -6,7 +6,7 @@
    volume-determined end nodes (tank-backed ends are).  The whole-model
    statement is checked on the implementation by paired runs (partial). *)
 From Coq Require Import QArith Qminmax List Bool Arith.
-From WSI Require Import Vqip Pow Tank Arc QTank Run TankLaws ArcLaws Erasure.
+From WSI Require Import Vqip Pow Tank Arc QTank Run TankLaws ArcLaws Erasure QTankErasure.
 Import ListNotations.
 Open Scope Q_scope.
 
@@ -51,3 +51,22 @@ Print Assumptions C20_arc_pull.
 Example C20_tank_ends_are_volume_determined : vol_determined (nb * nb) (nb * nb) nbport nbport same_ends.
 Proof. exact nbport_vol_determined. Qed.
 Print Assumptions C20_tank_ends_are_volume_determined.
+
+(* queue tanks (QueueTank / DecayQueueTank, the stores of Sewer and QueueGroundwater): two tanks with the same
+   capacity, travel time and volumes - in the declared contents, the arrived part and every bucket of the queue -
+   answer every operation sequence with the same volumes, whatever they track and WHETHER OR NOT THEY DECAY: decay
+   tables and temperatures are unconstrained (same_op relates QEnd T with QEnd T' for any T, T'), a fresh plain and a
+   fresh decaying tank are related.  (False of the model before DecayQueueTank._end_timestep was repaired: the
+   decaying close-out did not release the water that had completed its travel time.) *)
+Theorem C20_queue_tank_histories : forall ops ops' t u, same_qt t u -> Forall2 same_op ops ops' ->
+  Forall2 same_vol (qrun t ops) (qrun u ops').
+Proof. exact sq_run. Qed.
+Print Assumptions C20_queue_tank_histories.
+Theorem C20_queue_tank_step : forall t u o o', same_qt t u -> same_op o o' ->
+  same_qt (fst (qtank_do t o)) (fst (qtank_do u o')) /\ same_vol (snd (qtank_do t o)) (snd (qtank_do u o')).
+Proof. exact sq_do. Qed.
+Print Assumptions C20_queue_tank_step.
+Example C20_plain_and_decaying_queue_tanks_start_alike : forall cap v w n d d', same_vol v w ->
+  same_qt (qt_init cap v n d) (qt_init cap w n d').
+Proof. exact sq_init. Qed.
+Print Assumptions C20_plain_and_decaying_queue_tanks_start_alike.
